@@ -16,7 +16,7 @@ from vf.models import multipart_codec as MC
 PROPERTY = "C15"
 LEVEL = "exploration"
 SHARDS = {"quick": 4, "thorough": 16}
-REQUIRED = ["limit-exactness", "sync-equals-async", "buffer-bound(hook)", "sink-lag", "early-rejection", "request-accessor-default-limits"]
+REQUIRED = ["limit-exactness", "sync-equals-async", "buffer-bound(hook)", "sink-lag", "early-rejection", "request-accessor-default-limits", "large-parts"]
 RULE = ("Limits: forms from the C01 generator (0-6 parts) x max parts in {n-1, n, n+1} x max field bytes in {total-1, total, total+1, None} x chunk sizes {1, 7, 64, "
         "1000, whole} x sync / async helper. Bound: file and field parts whose content is {no line break, leading CR, leading LF, leading CRLF, CR every 100 kB, LF "
         "then only CRs, CR then only LFs, CR in the middle then LF at the end, dashes only} x 0.2-2 MB (thorough 8 MB) x chunk sizes {1000, 4096, 65536} through the "
@@ -132,6 +132,9 @@ def limits_case(ctx, form, mp, mm, cs, rng):
     for mode in ("sync", "async"):
         try:
             items = parse(mode, chunks, form["boundary"], file_factory=factory, max_form_parts=mp, max_form_memory_size=mm)
+            if len(items) != len(form["parts"]):
+                ctx.violation(f"part-count-differs|{mode}", {"form": form if len(repr(form)) < 2000 else "large form", "max_parts": mp, "max_bytes": mm, "chunk": cs},
+                              f"{len(items)} items for {len(form['parts'])} parts")
             for (_, v), p in zip(items, form["parts"]):
                 if isinstance(v, str) != (p["filename"] is None):
                     ctx.violation(f"file-part-and-field-confused|{factory.__name__}|{mode}", {"form": form, "max_parts": mp, "max_bytes": mm, "chunk": cs},
@@ -282,6 +285,26 @@ def run(ctx):
                 ctx.case((repr(form), mp, mm, cs))
         if i < 1:
             ctx.sample("limits", {"form": form, "max_parts": n, "max_bytes": mem})
+    # ---- parts around and above 64 KiB arriving in chunks larger than that (or all at once)
+    if ctx.shard == 0:
+        for size in (65535, 65536, 65537, 70_000, 140_000):
+            for last_is_big in (False, True):
+                for big_is_file in (True, False):
+                    parts = [{"name": "a", "filename": None, "content": b"v1", "ctype": None, "extra": False},
+                             {"name": "big", "filename": "big.bin" if big_is_file else None, "content": bytes([65 + size % 26]) * size, "ctype": None, "extra": False},
+                             {"name": "z", "filename": None, "content": b"tail", "ctype": None, "extra": False}]
+                    if last_is_big:
+                        parts = parts[:2]
+                    form = {"boundary": b"boundary", "parts": parts, "preamble": b"", "epilogue": b"", "pad": b""}
+                    n = len(parts)
+                    mem = sum(len(p["content"]) for p in parts if p["filename"] is None)
+                    for cs in (None, 100_000, 65537, 65536):
+                        for mp, mm in ((n, mem), (n - 1, mem), (n, mem - 1), (n + 1, mem + 1)):
+                            limits_case(ctx, form, mp, mm, cs, None)
+                            ctx.mon("large-parts")
+                            ctx.case(("large-part", size, last_is_big, big_is_file, cs, mp, mm))
+    else:
+        ctx.mon("large-parts", 0)
     # ---- buffering bound
     sizes = [200_000, 1_000_000] if ctx.quick else [200_000, 1_000_000, 2_000_000, 8_000_000]
     idx = 0
